@@ -682,6 +682,12 @@ def chk_l1(inp, c):
     Pn_ = Pcorn / Pcorn.sum(axis=1, keepdims=True)
     if m > 2 and np.linalg.matrix_rank(Pn_[:, :-1] - Pn_[:, :-1].mean(0), tol=1e-9) < m - 1:
         c.unmet("chromatic gamut not full-dimensional")
+    if m == 2 and float(np.ptp(Pn_[:, 0])) <= 1e-9:
+        c.unmet("chromatic gamut not full-dimensional (a single chromaticity)")
+    if bounded:
+        tot = (_corner_matrix(lbv, ubv) @ Mt.T + c0).sum(axis=1)
+        if not (float(tot.min()) + 1e-9 * scale < l1 < float(tot.max()) - 1e-9 * scale):
+            c.unmet("requested total capture not attainable by the bounded system")
     est = c.call(gen.make_estimator, dreye, inp, _where="ReceptorEstimator+register_system")
     ok, res = c.try_call(lambda: _quiet(est.sample_in_gamut, n, seed=seed, engine=eng, l1=l1, relative=rel))
     if not ok:
